@@ -5,6 +5,7 @@ import os
 
 import common
 import dot
+import trace
 from common import CheckError
 
 SPECDIR = os.path.join(common.SPEC, "combinatorial")
@@ -79,6 +80,20 @@ def run(rep, pid, tier):
     if not rep.violations and n != 3 * len(expected):
         raise CheckError("combinatorial replay: %d of %d walks" % (n, 3 * len(expected)))
     rep.add(combinatorial_vectors_replayed=len(expected), combinatorial_walks=n, combinatorial_tuples=sum(len(v[1]) for v in expected.values()))
+    # the candidate points of nano::local_search for every centre of small index grids, judged by TLC (NeighTrace.tla)
+    nout = os.path.join(work, "neigh.ndjson")
+    rc, o, _ = common.run([exe, "neigh", nout], timeout=120, check=False)
+    nrecs = common.read_ndjson(nout) if os.path.exists(nout) else []
+    if rc != 0 or not nrecs or nrecs[-1].get("case") != -1:
+        rep.violation("local_search driver crashed or hung (rc=%d)" % rc, payload={"output": o[-3000:]})
+    else:
+        nrecs = [x for x in nrecs if x["e"] == "Neigh"]
+        acc, rejects, _ = trace.validate_independent("NeighTrace", "NeighTrace.cfg", os.path.join(common.SPEC, "tuner"), nrecs, nout + ".tlc", tag="c13n")
+        for ev in rejects:
+            rep.violation("local_search returns points outside the grid / the 3^d neighbourhood, or a point twice: %s" % str(ev)[:500], payload=ev)
+        if not rep.violations and acc < 1000:
+            raise CheckError("local_search replay: only %d neighbourhoods" % acc)
+        rep.add(local_search_neighbourhoods_validated=acc)
     # observation outside the listed properties (DESIGN 9.8): on counts = (1, .., 1) the transcription has a lasso (TLC: Terminates violated)
     # and the real operator++ does not return; the tuners only ever use counts = (3, .., 3)
     r = common.tlc("Combinatorial", "Combinatorial_allones.cfg", SPECDIR, workers=1, timeout=300)
